@@ -1,4 +1,5 @@
 import TinsModel.Ack.Lemmas
+import TinsModel.Ack.Canon
 import TinsModel.Ack.Spec
 /-
   Refinement: the tracker model, fed the 32-bit images of a conforming history of absolute positions, represents
@@ -344,5 +345,25 @@ theorem isSegmentAcked_iff {A : Nat} {seen : List Blk} {t : Tracker} (hr : Rep A
       apply (piece_iff hr i p q h2 hlo hhi hlen hle (by unfold half; omega) (by unfold half; omega)).2
       intro z hz1 hz2
       exact h z (by omega) (by omega)
+
+/-! ### canonical form along histories (conforming or not) -/
+
+theorem edgesOf_lt (bs : List Blk) : ∀ x ∈ edgesOf bs, x < 4294967296 := by
+  intro x hx
+  unfold edgesOf at hx
+  simp only [List.mem_flatMap, List.mem_cons, List.mem_nil_iff, or_false] at hx
+  obtain ⟨b, _, hx | hx⟩ := hx <;> subst hx <;> exact wrap32_lt _
+
+theorem good_feed (t : Tracker) (k : Pkt) (hg : Good t) : Good (feed t k) := by
+  unfold feed
+  apply good_processPacket t _ _ hg (wrap32_lt _)
+  intro e he
+  cases he
+  exact edgesOf_lt k.blocks
+
+theorem good_run (t : Tracker) (h : List Pkt) (hg : Good t) : Good (run t h) := by
+  induction h generalizing t with
+  | nil => exact hg
+  | cons k rest ih => exact ih _ (good_feed t k hg)
 
 end Tins.Ack
